@@ -315,6 +315,15 @@ def gen_directives(rng):
       else:
         v = rng.choice([1, 'u'])
         seq.append((f'set:b.x={v!r}', lambda cfg, v=v: (setattr(cfg.b, 'x', v), cfg)[1]))
+    if rng.random() < 0.5:
+      # two overrides with the SAME mutable literal text, then one of them is edited in place
+      lit_ = rng.choice([[64, 64], {'k': [1]}])
+      seq.append((f'set:b.x={lit_!r}', lambda cfg, l=lit_: (setattr(cfg.b, 'x', copy.deepcopy(l)), cfg)[1]))
+      seq.append((f'set:uid={lit_!r}', lambda cfg, l=lit_: (setattr(cfg, 'uid', copy.deepcopy(l)), cfg)[1]))
+      if isinstance(lit_, list):
+        seq.append(('set:b.x[0]=128', lambda cfg: (cfg.b.x.__setitem__(0, 128), cfg)[1]))
+      else:
+        seq.append(("set:b.x['k']=128", lambda cfg: (cfg.b.x.__setitem__('k', 128), cfg)[1]))
     return seq
   if base_kind == 'config':
     args = [lit(rng) for _ in range(rng.randint(0, 3))]
